@@ -7,6 +7,7 @@ CONSTANTS
   MaxCrash = 0
   MaxCreate = 2
   MaxHist = 2
+  MaxHistUnlisted = 1
   RECORD_FIRST = FALSE
   OVERWRITE = FALSE
   READ_LIVE = FALSE
